@@ -71,8 +71,10 @@ def first_lines(t, key, n=12):
 KNOWN_IDS = ""
 
 
-def run_plan(root, binary, plan_path, scratch, timeout=HANG_S, want_log=False):
+def run_plan(root, binary, plan_path, scratch, timeout=HANG_S, want_log=False, oomk_trace=False):
     env = dict(os.environ, SIM_SCRATCH=scratch, SIM_KNOWN=KNOWN_IDS)
+    if oomk_trace:
+        env["SIM_OOMK_TRACE"] = "1"
     cmd = [os.path.join(root, "build", binary), "--replay", plan_path] + (["--log"] if want_log else [])
     try:
         r = subprocess.run(cmd, cwd=root, env=env, stdout=subprocess.PIPE, stderr=subprocess.PIPE, text=True,
@@ -88,6 +90,12 @@ def run_plan(root, binary, plan_path, scratch, timeout=HANG_S, want_log=False):
             p = head.split()
             return {"ok": False, "cls": p[2], "hash": p[3], "detail": detail, "log": out}
     cls, detail = classify_crash(r.stderr, r.returncode)
+    if oomk_trace:
+        # the process died inside an enumeration: the last announced fault point is the one
+        last = [l for l in out.splitlines() if l.startswith("OOMK ")]
+        if last:
+            pp = last[-1].split()
+            detail = "[oom.k=%s%s%s] %s" % (pp[1], (",gap=" + pp[2]) if len(pp) > 2 and pp[2] != "-1" else "", (",idx=" + pp[3]) if len(pp) > 3 else "", detail)
     return {"ok": False, "cls": cls, "hash": "", "detail": detail, "log": out + "\n" + r.stderr[-3000:]}
 
 
@@ -256,6 +264,9 @@ def run_batch(root, spec, base_seed, budget, thorough, scratch, nworkers):
            "samples": [], "failures": [], "states": set(), "first_seed": None, "seeds_sample": []}
     deadline = time.time() + budget
     lock = threading.Lock()
+    # fault-enumeration checks: one failure class can have several causes (operation kinds, call sites), so several
+    # failing runs per class are kept and told apart later by operation and call site
+    percls = 10 if spec.get("level") == "fault_enumeration" else 1
 
     def pump(slot):
         first_index = 0
@@ -264,7 +275,7 @@ def run_batch(root, spec, base_seed, budget, thorough, scratch, nworkers):
             if remaining < 1.0:
                 return
             with lock:
-                if len(agg["failures"]) >= 8:      # distinct failure classes; repeats are only counted
+                if len(agg["failures"]) >= 8 * percls:      # distinct failure classes; repeats are only counted
                     return
             w = Worker(root, spec, slot, nworkers, base_seed, remaining, thorough, scratch, first_index)
             cur = None
@@ -288,7 +299,7 @@ def run_batch(root, spec, base_seed, budget, thorough, scratch, nworkers):
                 line = line.rstrip("\n")
                 if line.startswith("OOMK "):
                     parts = line.split()
-                    curk = parts[1] + ((",gap=" + parts[2]) if len(parts) > 2 and parts[2] != "-1" else "")
+                    curk = parts[1] + ((",gap=" + parts[2]) if len(parts) > 2 and parts[2] != "-1" else "") + ((",idx=" + parts[3]) if len(parts) > 3 else "")
                     continue
                 if line.startswith("RUN "):
                     cur = int(line.split()[1])
@@ -334,7 +345,7 @@ def run_batch(root, spec, base_seed, budget, thorough, scratch, nworkers):
                 p = head.split()
                 with lock:
                     agg["failed_runs"] = agg.get("failed_runs", 0) + 1
-                    if not any(f["cls"] == p[2] for f in agg["failures"]):
+                    if sum(1 for f in agg["failures"] if f["cls"] == p[2]) < percls:
                         agg["failures"].append({"seed": int(p[1]), "cls": p[2], "hash": p[3], "detail": detail, "crash": False})
             elif rc not in (0, 1):
                 with open(w.errpath, errors="replace") as f:
@@ -347,7 +358,7 @@ def run_batch(root, spec, base_seed, budget, thorough, scratch, nworkers):
                 with lock:
                     agg["runs"] += nrun
                     agg["failed_runs"] = agg.get("failed_runs", 0) + 1
-                    if not any(f["cls"] == cls for f in agg["failures"]):
+                    if sum(1 for f in agg["failures"] if f["cls"] == cls) < percls:
                         agg["failures"].append({"seed": cur, "cls": cls, "hash": "", "detail": detail, "crash": True, "stderr": err[-6000:]})
             else:
                 return   # clean end of budget
@@ -381,7 +392,7 @@ def oom_sites(root, binary, planpath, scratch):
                 addrs_per_failure.append(cur)
             cur.append(m.group(1))
         if not addrs_per_failure:
-            return "? in=?"
+            return "? in=? via=?"
         # a new backtrace starts wherever _dbus_print_backtrace is the frame: re-split after symbolising
         flat = [a for bt in addrs_per_failure for a in bt]
         sym = subprocess.run(["llvm-symbolizer-14", "-e", exe, "-f", "-p", "--no-inlines"] + flat, stdout=subprocess.PIPE, stderr=subprocess.DEVNULL, timeout=120)
@@ -399,10 +410,17 @@ def oom_sites(root, binary, planpath, scratch):
                 bts.append(curbt)
             elif curbt is not None:
                 curbt.append((fn, loc))
-        sites, handlers = [], []
+        sites, handlers, vias = [], [], []
         for bt in bts:
             if bt and bt[0][0] == "_dbus_abort":
                 continue
+            # phase of a configuration reload: what bus_context_reload_config had called (parsing the file,
+            # or putting the parsed configuration in force)
+            via = "-"
+            for i, (fn, loc) in enumerate(bt):
+                if fn == "bus_context_reload_config" and i > 0:
+                    via = bt[i - 1][0]
+            vias.append(via)
             h = [fn for fn, loc in bt if fn.startswith("bus_driver_handle_") and fn != "bus_driver_handle_message"]
             handlers.append(h[-1][len("bus_driver_"):] if h else "dispatch")
             inbus = [i for i, (fn, loc) in enumerate(bt) if re.search(r"/bus/[^/]+\.c:", loc)]
@@ -412,13 +430,15 @@ def oom_sites(root, binary, planpath, scratch):
                 sites.append(bt[i][0] + (">" + bt[i - 1][0] if i > 0 else ""))
             elif bt:
                 sites.append(bt[-1][0] if len(bt) < 3 else bt[2][0])
-        return "+".join(sites[:2]) + " in=" + "+".join(handlers[:2])
+        return "+".join(sites[:2]) + " in=" + "+".join(handlers[:2]) + " via=" + "+".join(vias[:2])
     except Exception:
-        return "? in=?"
+        return "? in=? via=?"
 
 
-def handle_failure(root, spec, prop, fl, thorough, scratch, known, tier):
-    """gate, minimise, write replay.  returns ('violation', path, cls, prop) | ('known', entry) | ('harness', msg)"""
+def prepare_failure(root, spec, prop, fl, thorough, scratch, known):
+    """stage 1 (cheap): regenerate the plan, pin the fault point, gate by two fresh-process replays, name the
+    operation and the call site(s) of the failing allocation(s), look the failure up in the known findings.
+    returns ('harness', msg) or ('ctx', dict)"""
     binary = spec["binary"]
     if fl["cls"] == "harness-error":
         return ("harness", fl["detail"])
@@ -427,6 +447,7 @@ def handle_failure(root, spec, prop, fl, thorough, scratch, known, tier):
     text = emit_plan(root, binary, spec["prop"], fl["seed"], thorough)
     if not text.strip():
         return ("harness", "could not regenerate plan for seed %d" % fl["seed"])
+    enum_text = text
     # fault-enumeration checks: name the operation that ran under the injected failure (the step right
     # before "oombus"), so that findings are identified by operation kind
     opkind = ""
@@ -439,11 +460,12 @@ def handle_failure(root, spec, prop, fl, thorough, scratch, known, tier):
                 opkind += ":" + (p[4] if opkind == "query" else "type" + p[3].split(",")[0])
     # fault-enumeration checks: pin the failing allocation index so that replay and minimisation
     # re-execute one run instead of the whole enumeration
-    mk = re.search(r"\[oom\.k=(-?\d+)(?:,gap=(-?\d+))?\]", fl.get("detail", "") or "")
+    mk = re.search(r"\[oom\.k=(-?\d+)(?:,gap=(-?\d+))?(?:,idx=(\d+))?\]", fl.get("detail", "") or "")
     if mk and "cfg oom.enumerate 1" in text:
         text = text.replace("cfg oom.enumerate 1", "cfg oom.enumerate 0\ncfg oom.k %s\ncfg oom.gap %s" % (mk.group(1), mk.group(2) or "-1"))
     os.makedirs(os.path.join(root, "replays"), exist_ok=True)
-    ppath = os.path.join(scratch, "fail-%d.plan" % fl["seed"])
+    tag = "%d-%s" % (fl["seed"], (mk.group(3) or "x") if mk else "x")
+    ppath = os.path.join(scratch, "fail-%s.plan" % tag)
     with open(ppath, "w") as f:
         f.write(text)
     # gate: two fresh-process replays must fail the same way
@@ -462,6 +484,32 @@ def handle_failure(root, spec, prop, fl, thorough, scratch, known, tier):
         return ("harness", r1["detail"])
     vprop = prop_of_class(cls, spec.get("safety_prop", prop))
     k = match_known(known, vprop, cls, r1["detail"])
+    return ("ctx", {"seed": fl["seed"], "text": text, "enum_text": enum_text, "ppath": ppath, "cls": cls, "optag": optag, "r1": r1, "vprop": vprop,
+                    "known": k, "idx": int(mk.group(3)) if mk and mk.group(3) is not None else None, "tag": tag,
+                    "key": (cls, optag, id(k) if k else None)})
+
+
+def continue_enumeration(root, spec, ctx, scratch):
+    """A reported fault point must not shadow what the later fault points of the same operation do: re-execute the
+    seed's enumeration from the point behind it.  returns a failure record for the next failing point, or None."""
+    if ctx["idx"] is None or "cfg oom.enumerate 1" not in ctx["enum_text"]:
+        return None
+    text = ctx["enum_text"].replace("cfg oom.enumerate 1", "cfg oom.enumerate 1\ncfg oom.skip %d" % (ctx["idx"] + 1))
+    path = os.path.join(scratch, "cont-%d.plan" % ctx["seed"])
+    with open(path, "w") as f:
+        f.write(text)
+    r = run_plan(root, spec["binary"], path, scratch, timeout=600, oomk_trace=True)
+    if r["ok"]:
+        return None
+    if r["cls"] == "nonterminating" and "[oom.k=" not in r["detail"]:
+        return None
+    return {"seed": ctx["seed"], "cls": r["cls"], "hash": r["hash"], "detail": r["detail"], "crash": r["hash"] == "", "continued": True}
+
+
+def finish_failure(root, spec, prop, ctx, scratch, known, tier):
+    """stage 2: minimise, write the replay file.  returns ('violation', info) | ('known', entry, info)"""
+    binary = spec["binary"]
+    text, cls, optag, vprop, k, r1, ppath = ctx["text"], ctx["cls"], ctx["optag"], ctx["vprop"], ctx["known"], ctx["r1"], ctx["ppath"]
     head, steps = split_plan(text)
     mini = Minimiser(root, binary, scratch, cls, 200 if tier == "quick" else 2000)
     n0 = len(steps)
@@ -469,7 +517,7 @@ def handle_failure(root, spec, prop, fl, thorough, scratch, known, tier):
     steps = mini.simplify_steps(head, steps)
     steps = mini.ddmin(head, steps)
     mtext = join_plan(head, steps)
-    mpath = os.path.join(scratch, "min-%d.plan" % fl["seed"])
+    mpath = os.path.join(scratch, "min-%s.plan" % ctx["tag"])
     with open(mpath, "w") as f:
         f.write(mtext)
     rm = run_plan(root, binary, mpath, scratch, want_log=True)
@@ -485,10 +533,10 @@ def handle_failure(root, spec, prop, fl, thorough, scratch, known, tier):
         if l.startswith("HISTORY "):
             hist = l[8:]
     safe = re.sub(r"[^A-Za-z0-9_.-]", "_", cls)[:60]
-    rpath = os.path.join(root, "replays", "%s-%s-%d.plan" % (vprop, safe, fl["seed"]))
+    rpath = os.path.join(root, "replays", "%s-%s-%s.plan" % (vprop, safe, ctx["tag"] if ctx["idx"] is not None else str(ctx["seed"])))
     with open(rpath, "w") as f:
         f.write("# replay file: ./check %s --replay %s\n" % (prop, os.path.relpath(rpath, root)))
-        f.write("# property %s  class %s  seed %d  expected-trace-hash %s\n" % (vprop, cls, fl["seed"], rm["hash"]))
+        f.write("# property %s  class %s  seed %d  expected-trace-hash %s\n" % (vprop, cls, ctx["seed"], rm["hash"]))
         f.write("# minimised from %d to %d steps in %d re-executions\n" % (n0, len(steps), mini.runs))
         f.write("# violation: %s\n" % rm["detail"].replace("\n", " ")[:1500])
         if hist:
@@ -576,15 +624,31 @@ def main(root, argv):
         agg = run_batch(root, spec, seed, budget, thorough, scratch, nworkers)
         rc = 0
         violations, knowns, harness = [], [], []
-        seen_cls = set()
-        for fl in agg["failures"]:
-            if fl["cls"] in seen_cls:
+        seen_keys = set()
+        queue = list(agg["failures"])
+        follow_deadline = time.time() + max(60.0, 0.6 * budget)
+        followed = {}
+        while queue:
+            fl = queue.pop(0)
+            st = prepare_failure(root, spec, prop, fl, thorough, scratch, known)
+            if st[0] == "harness":
+                harness.append(st[1])
                 continue
-            seen_cls.add(fl["cls"])
-            res = handle_failure(root, spec, prop, fl, thorough, scratch, known, tier)
-            if res[0] == "violation": violations.append(res[1])
-            elif res[0] == "known": knowns.append((res[1], res[2]))
-            else: harness.append(res[1])
+            ctx = st[1]
+            already_listed = ctx["known"] is not None and any(k is ctx["known"] for k, _ in knowns)
+            if ctx["key"] not in seen_keys and not already_listed:
+                seen_keys.add(ctx["key"])
+                res = finish_failure(root, spec, prop, ctx, scratch, known, tier)
+                if res[0] == "violation": violations.append(res[1])
+                else:
+                    if not any(k is res[1] for k, _ in knowns): knowns.append((res[1], res[2]))
+            # fault enumeration: go on behind the reported fault point (bounded)
+            if ctx["idx"] is not None and time.time() < follow_deadline and followed.get(ctx["seed"], 0) < 120 and len(violations) < 8:
+                followed[ctx["seed"]] = followed.get(ctx["seed"], 0) + 1
+                agg["counters"]["oom_enumerations_continued_behind_a_reported_point"] = agg["counters"].get("oom_enumerations_continued_behind_a_reported_point", 0) + 1
+                nxt = continue_enumeration(root, spec, ctx, scratch)
+                if nxt is not None:
+                    queue.insert(0, nxt)
         for k, info in knowns:
             print("KNOWN-FINDING: property=%s %s" % (k["property"], k["text"]))
         for k in known:
